@@ -38,6 +38,18 @@ def reviewed : List Reviewed := [
   -- line 574: range nm   then: return
   { site := { file := "internal/graph/graph.go", fn := "NodeMap.nodes", mapType := "map[internal/graph.NodeInfo]*internal/graph.Node", kind := .append, sink := "append", sorted := false, returned := true },
     verdict := .sortedByConsumer "CreateNodes/newGraph/newTree hand the list to selectNodesForGraph; report.newTrimmedGraph sorts Graph.Nodes before every printer; printTraces uses only the per-location lists (line order)" },
+  -- delete sites: a map entry is deleted inside a map walk (kind .delete).  Order matters only if the
+  -- decision to delete depends on what earlier iterations deleted — reviewed one by one:
+  -- TrimTree, removed root: the in-edge of EVERY child is deleted, unconditionally
+  { site := { file := "internal/graph/graph.go", fn := "Graph.TrimTree", mapType := "map[*internal/graph.Node]*internal/graph.Edge", kind := .delete, sink := "delete", sorted := false, returned := false },
+    verdict := .orderIrrelevant "TrimTree: every child of the removed node is re-parented (or orphaned) unconditionally; each iteration touches only its own child's entries" },
+  -- TrimLowFrequencyEdges: the condition reads the edge's own weight only
+  { site := { file := "internal/graph/graph.go", fn := "Graph.TrimLowFrequencyEdges", mapType := "map[*internal/graph.Node]*internal/graph.Edge", kind := .delete, sink := "delete (from the ranged map)", sorted := false, returned := false },
+    verdict := .orderIrrelevant "the edge is dropped iff its own |weight| is below the cutoff; no decision reads state changed by another iteration" },
+  { site := { file := "internal/graph/graph.go", fn := "Graph.TrimLowFrequencyEdges", mapType := "map[*internal/graph.Node]*internal/graph.Edge", kind := .delete, sink := "delete", sorted := false, returned := false },
+    verdict := .orderIrrelevant "the mirror entry src.Out[n] of the same dropped edge" },
+  -- (RemoveRedundantEdges must NOT appear here: whether an in-edge is redundant depends on the edges
+  -- already removed, so it walks n.In.Sort() — a slice — and not the map.)
   -- line 725: range n.In   then: fmt.Sprintf, return, strings.Join
   { site := { file := "internal/graph/graph.go", fn := "Graph.String", mapType := "map[*internal/graph.Node]*internal/graph.Edge", kind := .append, sink := "append", sorted := false, returned := true },
     verdict := .notReportOutput "Graph.String is a debugging aid used by the package tests only" },
